@@ -157,6 +157,10 @@ func (s *fakeTLSServer) serve(conn net.Conn, behavior string) {
 		switch verb {
 		case "EHLO":
 			switch {
+			case inTLS && behavior == "tls-ehlo-refused":
+				// inside TLS this server only speaks HELO: the client must end up with NO extensions,
+				// not with the ones it heard in plaintext
+				io.WriteString(conn, "502 5.5.1 EHLO not implemented here\r\n")
 			case inTLS:
 				// the TLS capability list deliberately differs from anything said in plaintext
 				io.WriteString(conn, "250-fake.example\r\n250-8BITMIME\r\n250-AUTH TLSONLY\r\n250 SIZE 4242\r\n")
@@ -259,7 +263,10 @@ func evalC10Client(c C10ClientCase) *h.Finding {
 		}
 		sizeSeen, _ = cl.MaxMessageSize()
 		if c.Auth {
-			if err := cl.Auth(plainSASL{}); err != nil && callErr == nil {
+			// as the package-level SendMail does: authenticate only if the (renegotiated) hello offers AUTH
+			if ok, _ := cl.Extension("AUTH"); !ok {
+				callErr = fmt.Errorf("harness: server does not offer AUTH")
+			} else if err := cl.Auth(plainSASL{}); err != nil && callErr == nil {
 				callErr = err
 			}
 		}
@@ -330,6 +337,23 @@ func evalC10Client(c C10ClientCase) *h.Finding {
 	if bytes.Contains(srv.afterGarbage, []byte("secret")) || bytes.Contains(srv.afterGarbage, []byte("MAIL FROM")) {
 		return h.F("c10-plaintext-leak", "%s: after a garbled handshake the client sent %q in the clear", desc, srv.afterGarbage)
 	}
+	if c.Behavior == "tls-ehlo-refused" {
+		// the upgrade works, the renegotiated hello falls back to HELO: no capability may survive
+		joined := strings.Join(srv.tlsLines, "")
+		if haveClient && (authCaps != "" || sizeSeen != 0) {
+			return h.F("c10-plaintext-capabilities-trusted", "%s: inside TLS the server only accepted HELO, yet the client reports AUTH %q and SIZE %d (heard in plaintext)", desc, authCaps, sizeSeen)
+		}
+		if strings.Contains(joined, "AUTH ") || strings.Contains(joined, "BODY=") || strings.Contains(joined, "SIZE=") {
+			return h.F("c10-plaintext-capabilities-trusted", "%s: the client used extensions it only heard about in plaintext: %q", desc, srv.tlsLines)
+		}
+		if c.Auth && callErr == nil {
+			return h.F("c10-plaintext-capabilities-trusted", "%s: AUTH was requested, the TLS session offers none, but the call chain returned nil", desc)
+		}
+		if len(srv.tlsLines) == 0 || !strings.HasPrefix(strings.ToUpper(srv.tlsLines[0]), "EHLO") {
+			return h.F("c10-no-renegotiation", "%s: the first line inside TLS is not EHLO: %q", desc, srv.tlsLines)
+		}
+		return nil
+	}
 	good := c.Behavior == "good" || c.Behavior == "220-inject"
 	if !good {
 		if callErr == nil {
@@ -370,7 +394,7 @@ func C10(tier string) int {
 			ref.PConfig{TLSAvail: true, AllowInsecureAuth: false, AuthBackend: true}, ref.PConfig{LMTP: true, TLSAvail: true, AllowInsecureAuth: true, AuthBackend: true})
 	}
 	injects := []string{"", "MAIL FROM:<okinject@x.example>\r\n", "RCPT TO:<okinject@x.example>\r\n", "EHLO evil.example\r\nMAIL FROM:<okinject@x.example>\r\nRCPT TO:<okinject@y.example>\r\n", "RSET\r\nNOOP\r\n", "BDAT 5 LAST\r\ninject"}
-	run.Rule = fmt.Sprintf("SERVER: phase 1 - the C03 breadth-first search (alphabet without STARTTLS) collects one shortest history for EVERY reachable pre-STARTTLS state (greeted, authenticated, mid-transaction, mid-BDAT, after errors ...) of %d configuration(s); phase 2 - for every such state x injected plaintext %q x {same segment as STARTTLS, own segment before the ClientHello}: STARTTLS, real TLS handshake, then %d probe commands inside TLS (MAIL/RCPT/DATA/BDAT/AUTH before the new EHLO, EHLO, STARTTLS again, AUTH twice, a full transaction), every step compared with the reference model (old session: Logout and no Reset; nothing remembered; NewSession of the new EHLO sees TLS and the new name; AUTH state gone; envelope gone) plus: no injected command is ever executed once TLS is up. CLIENT: entry points {NewClientStartTLS (in-memory), DialStartTLS, SendMail (loopback)} x scripted server behaviours {good, no STARTTLS keyword, EHLO refused -> HELO fallback, 454, 220 then garbage, 220 with an untrusted certificate, 220 with injected plaintext replies behind it then a good handshake} x {with, without SASL client}: raw octets before the handshake contain only EHLO/HELO/STARTTLS/QUIT, the first line inside TLS is EHLO and ITS capability list is used, every bad case returns an error. states = pre-STARTTLS states; transitions = conversations.", len(cfgs), injects, len(c10Probes))
+	run.Rule = fmt.Sprintf("SERVER: phase 1 - the C03 breadth-first search (alphabet without STARTTLS) collects one shortest history for EVERY reachable pre-STARTTLS state (greeted, authenticated, mid-transaction, mid-BDAT, after errors ...) of %d configuration(s); phase 2 - for every such state x injected plaintext %q x {same segment as STARTTLS, own segment before the ClientHello}: STARTTLS, real TLS handshake, then %d probe commands inside TLS (MAIL/RCPT/DATA/BDAT/AUTH before the new EHLO, EHLO, STARTTLS again, AUTH twice, a full transaction), every step compared with the reference model (old session: Logout and no Reset; nothing remembered; NewSession of the new EHLO sees TLS and the new name; AUTH state gone; envelope gone) plus: no injected command is ever executed once TLS is up. CLIENT: entry points {NewClientStartTLS (in-memory), DialStartTLS, SendMail (loopback)} x scripted server behaviours {good, no STARTTLS keyword, EHLO refused -> HELO fallback, 454, 220 then garbage, 220 with an untrusted certificate, 220 with injected plaintext replies behind it then a good handshake, good handshake after which EHLO is refused and only HELO accepted} x {with, without SASL client}: raw octets before the handshake contain only EHLO/HELO/STARTTLS/QUIT, the first line inside TLS is EHLO and ITS capability list is used, every bad case returns an error. states = pre-STARTTLS states; transitions = conversations.", len(cfgs), injects, len(c10Probes))
 	run.Assumptions = []string{"plaintext put on the wire between the 220 reply and the ClientHello makes the handshake fail (no TLS session exists); what the server does with a failed handshake is not judged", "loopback TCP is used for DialStartTLS/SendMail (they insist on dialling), outside synctest bubbles"}
 	t0 := time.Now()
 	for _, pc := range cfgs {
@@ -424,7 +448,7 @@ func C10(tier string) int {
 	// client half
 	var ccases []C10ClientCase
 	for _, e := range []string{"NewClientStartTLS", "DialStartTLS", "SendMail"} {
-		for _, b := range []string{"good", "no-starttls", "ehlo-refused", "454", "220-garbage", "220-untrusted", "220-inject"} {
+		for _, b := range []string{"good", "no-starttls", "ehlo-refused", "454", "220-garbage", "220-untrusted", "220-inject", "tls-ehlo-refused"} {
 			for _, a := range []bool{false, true} {
 				ccases = append(ccases, C10ClientCase{Entry: e, Behavior: b, Auth: a})
 			}
